@@ -15,6 +15,7 @@ import (
 	"crypto/tls"
 	"crypto/x509"
 	"encoding/base64"
+	"encoding/json"
 	"encoding/pem"
 	"errors"
 	"fmt"
@@ -22,8 +23,11 @@ import (
 	"net"
 	"net/http"
 	"net/http/httptest"
-	"sort"
+	"os"
+	"path/filepath"
+	"regexp"
 	"strings"
+	"sync"
 	"testing"
 	"time"
 
@@ -46,14 +50,6 @@ import (
 	"verif.local/kit"
 )
 
-// kinds that are registered in this build and that the property quantifies over
-var x13FilterKinds = []string{
-	"Proxy", "Validator", "RateLimiter", "Mock", "Fallback", "CORSAdaptor", "RequestAdaptor", "ResponseAdaptor",
-	"RequestBuilder", "ResponseBuilder", "HeaderLookup", "HeaderToJSON", "CertExtractor", "RemoteFilter",
-	"MeshAdaptor", "KafkaBackend", "Kafka", "TopicMapper", "MQTTClientAuth", "ConnectControl",
-}
-var x13OtherKinds = []string{"Pipeline", "HTTPServer", "GlobalFilter", "MQTTProxy", "Retry", "CircuitBreaker"}
-
 type x13Reporter struct{}
 
 func (x13Reporter) Error(...interface{})          {}
@@ -66,6 +62,7 @@ type x13H struct {
 	env  *x13Env
 	peer *x509.Certificate
 	kind string // kind of the running case
+	seen map[string]bool
 	desc map[string]interface{}
 }
 
@@ -82,15 +79,65 @@ func (h *x13H) guard(phase string, f func()) (panicked bool) {
 	return true
 }
 
+// x13MsgNorm reduces messages that embed spec values (names, template positions) to
+// their class, so that one panic site with one cause has one signature.
+var x13MsgNorm = []struct {
+	re  *regexp.Regexp
+	rep string
+}{
+	{regexp.MustCompile(`policy \S* ?not found`), "policy <name> not found"},
+	{regexp.MustCompile(`policy \S* ?is not a`), "policy <name> is not a"},
+	{regexp.MustCompile(`^template: .*`), "template: <parse error>"},
+	{regexp.MustCompile(`^create pipeline map failed, pipeline packet type .* not found.*`), "create pipeline map failed, pipeline packet type <t> not found"},
+	{regexp.MustCompile(`^create pipeline map failed, pipeline packet type .* show more than once.*`), "create pipeline map failed, pipeline packet type <t> show more than once"},
+	{regexp.MustCompile(`^broker \S* ?start failed`), "broker <name> start failed"},
+	{regexp.MustCompile(`^regexp: Compile\(.*`), "regexp: Compile(<expr>): <error>"},
+}
+
+func x13Class(msg string) string {
+	c := kit.MsgClass(msg)
+	for _, n := range x13MsgNorm {
+		c = n.re.ReplaceAllString(c, n.rep)
+	}
+	return c
+}
+
+// logPanic appends every panic (not only the first per signature) to a triage file
+// next to the summaries: <VERIF_OUT>/c13_panics.<shard>.jsonl
+func (h *x13H) logPanic(sig, phase string) {
+	dir := os.Getenv("VERIF_OUT")
+	if dir == "" {
+		return
+	}
+	f, err := os.OpenFile(filepath.Join(dir, "c13_panics."+os.Getenv("VERIF_SHARD")+".jsonl"), os.O_CREATE|os.O_APPEND|os.O_WRONLY, 0o644)
+	if err != nil {
+		return
+	}
+	defer f.Close()
+	b, _ := json.Marshal(map[string]interface{}{"sig": sig, "phase": phase, "seed": h.desc["seed"], "mutations": h.desc["mutations"]})
+	f.Write(append(b, '\n'))
+}
+
 func (h *x13H) report(phase, msg, site string) {
 	h.count("panics")
-	sig := fmt.Sprintf("C13/%s:panic:%s:%s", h.kind, site, kit.MsgClass(msg))
+	sig := fmt.Sprintf("C13/%s:panic:%s:%s", h.kind, site, x13Class(msg))
+	h.r.Cover("panic:" + h.kind + ":" + site)
+	h.r.Count("panic_sig/"+sig, 1)
+	h.logPanic(sig, phase)
+	if h.seen[sig] {
+		return
+	}
+	h.seen[sig] = true
+	if len(h.seen) > 36 {
+		// the kit keeps at most 40 violation records per part: never let a new
+		// signature be dropped silently
+		h.r.Inconclusive("more distinct panic signatures in one part than the kit can carry; split the part")
+	}
 	d := map[string]interface{}{"phase": phase, "panic": msg, "site": site}
 	for k, v := range h.desc {
 		d[k] = v
 	}
 	h.r.Violation(sig, d)
-	h.r.Cover("panic:" + h.kind + ":" + site)
 }
 
 // ---------------------------------------------------------------- HTTP requests
@@ -261,12 +308,12 @@ func x13PoliciesFor(tree interface{}) map[string]resilience.Policy {
 }
 
 func (h *x13H) runFilter(seed *x13Seed, tree map[string]interface{}) (accepted bool) {
-	spec, err := filters.NewSpec(h.env.super, "verif-pipeline", tree)
+	spec, err := filters.NewSpec(h.env.super, "verif-pipeline", x13Export(tree))
 	if err != nil {
 		return false
 	}
 	h.count("accepted")
-	external := seed.Kind == "Kafka" || seed.Kind == "KafkaBackend"
+	external := seed.Kind == "Kafka" || seed.Kind == "KafkaMQTT"
 	mk := func(prev filters.Filter, sp filters.Spec) filters.Filter {
 		var f filters.Filter
 		bad := false
@@ -345,7 +392,7 @@ func (h *x13H) runFilter(seed *x13Seed, tree map[string]interface{}) (accepted b
 	handle(f, 0)
 	h.guard("status", func() { f.Status() })
 	// update with an unchanged spec, the way Pipeline.reload does it
-	spec2, err := filters.NewSpec(h.env.super, "verif-pipeline", tree)
+	spec2, err := filters.NewSpec(h.env.super, "verif-pipeline", x13Export(tree))
 	if err == nil {
 		if f2 := mk(f, spec2); f2 != nil {
 			h.guard("close", func() { f.Close() })
@@ -783,7 +830,7 @@ func (h *x13H) mqttShort(port int, useTLS bool) (handled int) {
 // ---------------------------------------------------------------- resilience
 
 func (h *x13H) runResilience(seed *x13Seed, tree map[string]interface{}) bool {
-	pol, err := resilience.NewPolicy(tree)
+	pol, err := resilience.NewPolicy(x13Export(tree))
 	if err != nil {
 		return false
 	}
@@ -846,75 +893,120 @@ type x13Case struct {
 	muts []x13Mut
 }
 
-func TestVerif_C13_AcceptedSpecs(t *testing.T) {
+// The monitor is split into parts by kind group: the kit carries at most 40 violation
+// records per part, and every distinct panic signature must reach the driver.
+var x13Parts = map[string][]string{
+	"Proxy":       {"Proxy"},
+	"Auth":        {"Validator", "RateLimiter"},
+	"Adaptors":    {"RequestAdaptor", "ResponseAdaptor", "RequestBuilder", "ResponseBuilder", "CORSAdaptor", "Mock", "Fallback"},
+	"MiscFilters": {"HeaderLookup", "HeaderToJSON", "CertExtractor", "RemoteFilter", "MeshAdaptor", "Kafka", "KafkaMQTT", "TopicMapper", "MQTTClientAuth", "ConnectControl"},
+	"Pipeline":    {"Pipeline", "GlobalFilter"},
+	"Gates":       {"HTTPServer", "MQTTProxy"},
+	"Resilience":  {"Retry", "CircuitBreaker"},
+}
+
+func TestVerif_C13_Proxy(t *testing.T)       { x13RunPart(t, "Proxy") }
+func TestVerif_C13_Auth(t *testing.T)        { x13RunPart(t, "Auth") }
+func TestVerif_C13_Adaptors(t *testing.T)    { x13RunPart(t, "Adaptors") }
+func TestVerif_C13_MiscFilters(t *testing.T) { x13RunPart(t, "MiscFilters") }
+func TestVerif_C13_Pipeline(t *testing.T)    { x13RunPart(t, "Pipeline") }
+func TestVerif_C13_Gates(t *testing.T)       { x13RunPart(t, "Gates") }
+func TestVerif_C13_Resilience(t *testing.T)  { x13RunPart(t, "Resilience") }
+
+var (
+	x13SeedsOnce sync.Once
+	x13AllSeeds  []*x13Seed
+)
+
+func x13PrepareSeeds(env *x13Env) []*x13Seed {
+	x13SeedsOnce.Do(func() {
+		// schema bounds of every kind (grammar guidance for numeric boundaries)
+		filters.WalkKind(func(k *filters.Kind) bool { x13CollectBounds(k.DefaultSpec()); return true })
+		for _, k := range []string{"Retry", "CircuitBreaker"} {
+			if kd := resilience.GetKind(k); kd != nil {
+				x13CollectBounds(kd.DefaultPolicy())
+			}
+		}
+		x13CollectBounds(&Spec{})
+		x13CollectBounds(&pipeline.Spec{})
+		x13CollectBounds(&mqttproxy.Spec{})
+		x13CollectBounds(&globalfilter.Spec{})
+		x13AllSeeds = x13Seeds(env, x13StartKafka())
+		for _, s := range x13AllSeeds {
+			s.tree = x13ParseYAML(s.YAML)
+			s.muts = append(x13Enumerate(s.tree), s.Extra...)
+		}
+	})
+	return x13AllSeeds
+}
+
+func x13RunPart(t *testing.T, part string) {
 	r := kit.Start(t, "C13")
 	defer r.Finish()
+	kinds := x13Parts[part]
 	r.Rule("per kind 1-6 hand-written seed specs that validation accepts and that use every section of the kind; " +
 		"YAML-tree mutation at every node of every seed: drop, null, empty/dangling/malformed string, duration 0s/-1s/1ns, " +
 		"int 0/1/-1/large and the minimum/maximum (+-1) of easegress' own JSON schema for that property name, bool flip, empty map, map with a null value, " +
 		"empty list, list with null element / duplicated element / first element only, plus hand-written cross-section inconsistencies per kind " +
-		"(all-zero weights, policy of the wrong kind, dangling names, conflicting sections); case list = all seeds, then EVERY single mutation, then seeded pairs/triples of mutations. " +
+		"(all-zero weights, policy of the wrong kind, dangling names, conflicting sections); case list per part = all seeds, then EVERY single mutation, then seeded pairs/triples of mutations. " +
 		"Accepted specs are instantiated in a real single-member cluster + supervisor and driven with 15 varied HTTP requests (with/without response, stream bodies, odd headers, signed, JWT, basic auth, TLS peer cert) " +
 		"or 14 MQTT packets / a raw MQTT conversation / 20 resilience calls, then Status, Inherit(unchanged spec), Close. distinct = (kind, mutation point shape, mutation class, outcome)")
 	r.Assume("WasmHost is not registered in this build (build tag wasmhost) and is not covered; http3=true runs against the build stub of quic-go")
 	r.Assume("HTTP filters get HTTP contexts, MQTT filters MQTT contexts (protocol mismatch between a traffic gate and its pipeline is not generated); listening ports are chosen by the harness")
-	r.Assume("Kafka/KafkaBackend run against sarama's in-process mock broker; a spec whose (mutated) broker address is unreachable is validated but not instantiated")
+	r.Assume("Kafka/KafkaMQTT run against sarama's in-process mock broker; a spec whose (mutated) broker address is unreachable is validated but not instantiated")
 
 	env := x13GetEnv(r.TmpDir())
-	h := &x13H{r: r, env: env}
+	h := &x13H{r: r, env: env, seen: map[string]bool{}}
 	if blk, _ := pem.Decode([]byte(env.certPEM)); blk != nil {
 		h.peer, _ = x509.ParseCertificate(blk.Bytes)
 	}
-	seeds := x13Seeds(env, x13StartKafka())
-
-	// schema bounds of every kind (grammar guidance for numeric boundaries)
-	for _, k := range x13FilterKinds {
-		if kd := filters.GetKind(k); kd != nil {
-			x13CollectBounds(kd.DefaultSpec())
-		} else {
+	all := x13PrepareSeeds(env)
+	inPart := map[string]bool{}
+	for _, k := range kinds {
+		inPart[k] = true
+	}
+	var seeds []*x13Seed
+	allSingles, partSingles := 0, 0
+	seeded := map[string]bool{}
+	for _, s := range all {
+		seeded[s.Kind] = true
+		allSingles += len(s.muts)
+		if inPart[s.Kind] {
+			seeds = append(seeds, s)
+			partSingles += len(s.muts)
+		}
+	}
+	if part == "MiscFilters" {
+		// a registered filter kind without a seed would silently shrink the quantifier
+		filters.WalkKind(func(k *filters.Kind) bool {
+			if !seeded[k.Name] {
+				r.Inconclusive("registered filter kind without seed: " + k.Name)
+			}
+			return true
+		})
+	}
+	for _, k := range kinds {
+		if k != "Pipeline" && k != "GlobalFilter" && k != "HTTPServer" && k != "MQTTProxy" && k != "Retry" && k != "CircuitBreaker" && filters.GetKind(k) == nil {
 			r.Inconclusive("filter kind not registered: " + k)
 		}
 	}
-	for _, k := range []string{"Retry", "CircuitBreaker"} {
-		if kd := resilience.GetKind(k); kd != nil {
-			x13CollectBounds(kd.DefaultPolicy())
-		}
-	}
-	x13CollectBounds(&Spec{})
-	x13CollectBounds(&pipeline.Spec{})
-	x13CollectBounds(&mqttproxy.Spec{})
-	x13CollectBounds(&globalfilter.Spec{})
-
-	// registered filter kinds without a seed would silently shrink the quantifier
-	seeded := map[string]bool{}
-	for _, s := range seeds {
-		seeded[s.Kind] = true
-	}
-	filters.WalkKind(func(k *filters.Kind) bool {
-		if !seeded[k.Name] {
-			r.Inconclusive("registered filter kind without seed: " + k.Name)
-		}
-		return true
-	})
 
 	var cases []x13Case
 	for _, s := range seeds {
-		s.tree = x13ParseYAML(s.YAML)
 		cases = append(cases, x13Case{seed: s})
 	}
 	nSeeds := len(cases)
 	for _, s := range seeds {
-		s.muts = append(x13Enumerate(s.tree), s.Extra...)
 		for i := range s.muts {
 			cases = append(cases, x13Case{seed: s, muts: []x13Mut{s.muts[i]}})
 		}
 	}
-	nSingles := len(cases) - nSeeds
-	total := r.N(len(cases)+600, 60000)
+	thorough := 60000 * partSingles / (allSingles + 1)
+	total := r.N(len(cases)+partSingles/8, thorough)
 	if total < len(cases) {
 		total = len(cases)
 	}
-	r.Note("case list: %d seeds, %d single mutations, %d seeded pairs/triples", nSeeds, nSingles, total-len(cases))
+	r.Note("part %s: %d seeds, %d single mutations, %d seeded pairs/triples", part, nSeeds, partSingles, total-len(cases))
 
 	for i := 0; i < total; i++ {
 		if !r.Mine(i) {
@@ -932,8 +1024,6 @@ func TestVerif_C13_AcceptedSpecs(t *testing.T) {
 	}
 
 	// ---- evidence and required observations
-	kinds := append(append([]string{}, x13FilterKinds...), x13OtherKinds...)
-	sort.Strings(kinds)
 	var totalSpecs, totalAcc int64
 	for _, k := range kinds {
 		tot, acc := r.Counter("specs/"+k), r.Counter("accepted/"+k)
@@ -945,11 +1035,8 @@ func TestVerif_C13_AcceptedSpecs(t *testing.T) {
 	}
 	r.Count("specs_total", totalSpecs)
 	r.Count("accepted_total", totalAcc)
-	if totalSpecs > 0 {
-		r.Count("acceptance_permil", totalAcc*1000/totalSpecs)
-		if totalAcc*3 < totalSpecs {
-			r.Inconclusive(fmt.Sprintf("acceptance rate %d/%d is below one third: the generator needs work", totalAcc, totalSpecs))
-		}
+	if totalSpecs > 20 && totalAcc*3 < totalSpecs {
+		r.Inconclusive(fmt.Sprintf("part %s: acceptance rate %d/%d is below one third: the generator needs work", part, totalAcc, totalSpecs))
 	}
 	r.Require("seed_accepted", 1)
 }
@@ -969,6 +1056,8 @@ func (h *x13H) runCase(i int, c x13Case, isSeed bool) {
 	r.Case(i, h.desc)
 	h.count("specs")
 	before := r.Counter("panics/" + h.kind)
+	t0 := time.Now()
+	defer func() { r.Count("ms/"+h.kind, time.Since(t0).Milliseconds()) }()
 	var accepted bool
 	switch c.seed.Cat {
 	case x13FilterHTTP, x13FilterMQTT:
@@ -995,7 +1084,7 @@ func (h *x13H) runCase(i int, c x13Case, isSeed bool) {
 		if accepted {
 			r.Count("seed_accepted", 1)
 		} else {
-			r.Inconclusive("seed rejected by validation (harness seed outdated?): " + c.seed.ID)
+			r.Inconclusive("seed rejected by validation (harness seed outdated?): " + c.seed.ID + ": " + h.validationError(c.seed, tree))
 		}
 		if outcome == "panic" {
 			r.Note("seed %s itself panics", c.seed.ID)
@@ -1008,4 +1097,24 @@ func (h *x13H) runCase(i int, c x13Case, isSeed bool) {
 	if i%97 == 0 {
 		r.Sample(map[string]interface{}{"kind": c.seed.Kind, "mutations": descs, "outcome": outcome})
 	}
+}
+
+func (h *x13H) validationError(seed *x13Seed, tree map[string]interface{}) string {
+	var err error
+	switch seed.Cat {
+	case x13FilterHTTP, x13FilterMQTT:
+		_, err = filters.NewSpec(h.env.super, "verif-pipeline", x13Export(tree))
+	case x13Resilience:
+		_, err = resilience.NewPolicy(x13Export(tree))
+	default:
+		_, err = supervisor.NewSpec(x13ToYAML(tree))
+	}
+	if err == nil {
+		return "<accepted on retry>"
+	}
+	e := err.Error()
+	if len(e) > 400 {
+		e = e[:400]
+	}
+	return e
 }
